@@ -164,8 +164,10 @@ def typeof(n, env: Optional[dict] = None) -> str:
     t = n[0]
     if t in ("int", "enum", "gsize"):
         return "U"
-    if t in ("bytes", "str", "addr", "b16", "b32", "b64", "msig"):
+    if t in ("bytes", "str", "addr", "b16", "b32", "b64", "msig", "tmplb", "tmpla"):
         return "B"
+    if t == "tmpli":
+        return "U"
     if t == "txn":
         return TXN_METHODS[n[1]][1]
     if t == "gtxn":
